@@ -101,14 +101,19 @@ Proof. exact unflatten_attrs_spec. Qed.
 Print Assumptions C14_unflatten_attrs.
 
 (* "its inverse for an unflatten": peeling n+1 levels off the tuple shape / the merged id that
-   a tuple-style flatten of n+2 ranks produced gives the original entries back *)
+   a tuple-style flatten of n+2 un-flattened ranks produced gives the original entries back *)
 Theorem C14_unflatten_inverse : forall n seg atoms,
-  length seg = S (S n) -> length atoms = S (S n) ->
+  length seg = S (S n) -> length atoms = S (S n) -> forallb is_sz seg = true ->
   unflat_seg (S n) (flat_entry 0 seg) = Some seg
   /\ unflat_seg_id (S n) (flat_map atoms_of (map RS atoms)) = Some (map RS atoms).
 Proof.
-  intros n seg atoms Hs Ha. split.
-  - exact (unflat_seg_inverse n seg Hs).
+  intros n seg atoms Hs Ha Hz. split.
+  - replace (flat_entry 0 seg) with (ST seg).
+    + exact (unflat_seg_inverse n seg Hs).
+    + unfold flat_entry. cbn [Z.eqb]. f_equal. clear Hs.
+      induction seg as [|x l IH]; [reflexivity|].
+      cbn [forallb] in Hz. apply andb_true_iff in Hz. destruct Hz as [Hx Hl].
+      destruct x as [z|?]; [|discriminate]. cbn [flat_map comps app]. f_equal. exact (IH Hl).
   - replace (flat_map atoms_of (map RS atoms)) with atoms.
     + exact (unflat_seg_id_inverse n atoms Ha).
     + clear. induction atoms as [|a l IH]; [reflexivity|simpl; f_equal; exact IH].
